@@ -167,6 +167,36 @@ theorem c06_second_evaluate_hits (W : World D S F) (hit : F → F → Bool) (hr 
   obtain ⟨ic, h1, h2, h3⟩ := key
   simp only [evalC, interpCall, h1, h2, h3, and_self, if_true]
 
+/-- **cached PDF values are constants of a trial**: a block of PDF values that sits in a pd cache
+(signal grid PDF or background PDF) under the current state id is still there, unchanged, after any
+number of further evaluations and second-derivative queries — for *every* state, no invariant and no
+hypothesis on the hit test needed.  (Seeded change m3d computed a slope in place in such an array;
+the byte snapshots around every evaluate are the implementation-side form of this theorem.) -/
+theorem c06_cached_pd_values_immutable (W : World D S F) (v : Variant) (hit : F → F → Bool)
+    (cfg : Cfg) (ops : List (Op D S F)) (hq : ∀ op ∈ ops, (∃ q, op = .evaluate q) ∨ op = .grad2)
+    (st : St D S F) :
+    let st' := runSt W v hit cfg st ops
+    st'.sid = st.sid ∧ (∀ g, PdKeeps st.sid (st.pdc g) (st'.pdc g)) ∧ PdKeeps st.sid st.bkgc st'.bkgc := by
+  induction ops generalizing st with
+  | nil => exact ⟨rfl, fun g => pdKeeps_refl _ _, pdKeeps_refl _ _⟩
+  | cons op ops ih =>
+    have hrest : ∀ op' ∈ ops, (∃ q, op' = .evaluate q) ∨ op' = .grad2 :=
+      fun op' h => hq op' (List.mem_cons_of_mem _ h)
+    have hstep : (step W v hit cfg st op).1.sid = st.sid ∧
+        (∀ g, PdKeeps st.sid (st.pdc g) ((step W v hit cfg st op).1.pdc g)) ∧
+        PdKeeps st.sid st.bkgc (step W v hit cfg st op).1.bkgc := by
+      rcases hq op (List.mem_cons_self ..) with ⟨q, rfl⟩ | rfl
+      · simp only [step, evalE]
+        split
+        · obtain ⟨h1, h2, h3⟩ := evalC_keeps W hit cfg st q
+          exact ⟨h3, h1, h2⟩
+        · exact ⟨rfl, fun g => pdKeeps_refl _ _, pdKeeps_refl _ _⟩
+      · exact ⟨rfl, fun g => pdKeeps_refl _ _, pdKeeps_refl _ _⟩
+    obtain ⟨i1, i2, i3⟩ := ih hrest (step W v hit cfg st op).1
+    obtain ⟨s1, s2, s3⟩ := hstep
+    rw [s1] at i1 i2 i3
+    exact ⟨i1, fun g => pdKeeps_trans (s2 g) (i2 g), pdKeeps_trans s3 i3⟩
+
 /-! ### data sets of different size: nothing is truncated -/
 
 /-- all arrays of one trial have that trial's number of events, and (no event selection method) every
@@ -382,6 +412,25 @@ theorem c06_datafield_fresh_inv (f : D → S → P → V) (d : D) (s : S) :
   intro v p h1; simp [fieldFresh] at h1
 
 end datafield
+
+/-- the key of a data field is the tuple of the values of *all* global fit parameters it depends on:
+whenever the remembered tuple is not exactly the requested one — one component differing is enough —
+the values are recomputed from the current data and source, for every state (no invariant needed).
+(Seeded change m1d recomputed only when all components differed.) -/
+theorem c06_datafield_key_mismatch_recomputes {D S P V : Type} [DecidableEq P] (f : D → S → P → V)
+    (st : FieldSt D S P V) (p : P) (h : st.key ≠ some p) :
+    (fieldCalc f st p).2 = f st.data st.src p ∧ (fieldCalc f st p).1.key = some p := by
+  simp only [fieldCalc]
+  split
+  · rename_i v p' _ _ hk
+    split
+    · rename_i hp; subst hp; exact absurd hk h
+    · exact ⟨rfl, rfl⟩
+  · exact ⟨rfl, rfl⟩
+
+/-- a two-component key: only the second fit parameter changes — recomputed -/
+example : (fieldCalc (fun (d s : Nat) (p : Nat × Nat) => d + s + p.1 + 10 * p.2)
+    ⟨0, 0, true, some 12, some (2, 1)⟩ (2, 4)).2 = 42 := by decide
 
 /-- the data / source the field machine holds are those of the last `initNew` / `changeSource` -/
 def C06.fieldLastData {D S P : Type} (d0 : D) : List (FieldOp D S P) → D
